@@ -3,7 +3,8 @@
 (* C13.  FromStr for field-less enums: a string parses to variant V iff it *)
 (* equals V's name ignoring case when no other variant has the same        *)
 (* lower-cased name, or equals it exactly when one does.                   *)
-(* Names and strings are sequences of characters (1-char strings).  A raw  *)
+(* Names and strings are sequences of characters (1-char strings; "U+C4" / *)
+(* "U+E4" stand for the non-ASCII pair A-umlaut / a-umlaut).  A raw        *)
 (* identifier variant `r#fn` has the NAME "fn".                            *)
 (* Impl: from_str.rs enum_from - grouping by the lower-cased identifier    *)
 (* text, then one arm per group (unguarded) or per member (guarded).       *)
@@ -11,7 +12,9 @@
 EXTENDS Naturals, Sequences, FiniteSets, TLC
 
 LowerChar(c) == CASE c = "F" -> "f" [] c = "O" -> "o" [] c = "B" -> "b" [] c = "A" -> "a" [] c = "R" -> "r"
-                  [] c = "Z" -> "z" [] c = "N" -> "n" [] OTHER -> c
+                  [] c = "Z" -> "z" [] c = "N" -> "n"
+                  [] c = "U+C4" -> "U+E4"                       \* case folding is Unicode's (str::to_lowercase), not ASCII's
+                  [] OTHER -> c
 Lower(s) == [i \in 1..Len(s) |-> LowerChar(s[i])]
 
 \* a variant: [name (what the user reads and writes, without r#), raw : BOOLEAN]
